@@ -1820,3 +1820,49 @@ Proof.
       apply (print_item_nonempty r E).
   - rewrite <- E. apply parse_items_print; [discriminate|exact Hf].
 Qed.
+
+(* ================================================================ K. the task class cache *)
+
+Lemma cache_update_get {V} k k' (v : V) c :
+  cache_get k (cache_update k' v c) = if N.eqb k k' then Some v else cache_get k c.
+Proof.
+  unfold cache_get. induction c as [|[k2 v2] r IH]; cbn [cache_update assocN].
+  - destruct (N.eqb k k'); reflexivity.
+  - destruct (N.eqb k' k2) eqn:E.
+    + apply N.eqb_eq in E. subst k2. cbn [assocN]. destruct (N.eqb k k'); reflexivity.
+    + cbn [assocN]. destruct (N.eqb k k2) eqn:E2.
+      * apply N.eqb_eq in E2. subst k2. rewrite N.eqb_sym in E. rewrite E. reflexivity.
+      * exact IH.
+Qed.
+
+Lemma assocN_app {V} k (l1 l2 : list (N * V)) :
+  assocN k (l1 ++ l2) = match assocN k l1 with Some v => Some v | None => assocN k l2 end.
+Proof.
+  induction l1 as [|[k1 v1] r IH]; cbn [app assocN]; [reflexivity|].
+  destruct (N.eqb k k1); [reflexivity|exact IH].
+Qed.
+
+Lemma cache_fold_get {V} (ops : list (N * V)) : forall c k,
+  cache_get k (fold_left (fun c kv => cache_update (fst kv) (snd kv) c) ops c) =
+  match last_written k ops with Some v => Some v | None => cache_get k c end.
+Proof.
+  unfold last_written. induction ops as [|[k1 v1] r IH]; intros c k; cbn [fold_left rev]; [reflexivity|].
+  rewrite IH, assocN_app. destruct (assocN k (rev r)); [reflexivity|].
+  cbn [assocN fst snd]. rewrite cache_update_get. destruct (N.eqb k k1); reflexivity.
+Qed.
+
+(* after any sequence of UpdateClass calls GetClass returns, for every identifier, the class that
+   was written last (nothing if none was) *)
+Lemma cache_last_write_wins {V} (ops : list (N * V)) k :
+  cache_get k (cache_run ops) = last_written k ops.
+Proof.
+  unfold cache_run. rewrite cache_fold_get. destruct (last_written k ops); reflexivity.
+Qed.
+
+(* in particular a reload under the same identifier replaces the template, whatever the two
+   versions have in common *)
+Lemma cache_reload {V} (ops : list (N * V)) k v :
+  cache_get k (cache_run (ops ++ [(k, v)])) = Some v.
+Proof.
+  rewrite cache_last_write_wins. unfold last_written. rewrite rev_app_distr. cbn. rewrite N.eqb_refl. reflexivity.
+Qed.
